@@ -29,7 +29,7 @@ from .._protocol.incoming import DNSIncoming
 from .._record_update import RecordUpdate
 from .._updates import RecordUpdateListener
 from .._utils.time import current_time_millis
-from ..const import _ADDRESS_RECORD_TYPES, _DNS_PTR_MIN_TTL, _TYPE_PTR
+from ..const import _ADDRESS_RECORD_TYPES, _CLASS_IN, _DNS_PTR_MIN_TTL, _TYPE_PTR
 
 if TYPE_CHECKING:
     from .._core import Zeroconf
@@ -89,6 +89,12 @@ class RecordManager:
         answers = msg.answers()
 
         for record in answers:
+            # mDNS only knows the Internet class: questions, lookups and the
+            # replay to new listeners all ask for it, so a record of another
+            # class would sit in the cache seen by some and not by others.
+            if record.class_ != _CLASS_IN:
+                continue
+
             # Protect zeroconf from records that can cause denial of service.
             #
             # We enforce a minimum TTL for PTR records to avoid
